@@ -150,6 +150,27 @@ def protocol_run(rng, S, t, n, exhaustive_subset=None, big_idents=None):
         zs[i] = z
         lines.append(T + "sign %s %s %s %s %s" % (shares_b[i].hex(), nonces_b[i].hex(), comms_b[i].hex(), hx(msg), cl_b.hex()))
         exp.append(("OK S " + S.enc_sig_share((shares[i]["ident"], z)).hex()) if z is not None else "OK N")
+    # a signer presented with a list in which exactly one point of one entry was replaced by another valid point: its own entry
+    # (hiding only / binding only / both: must refuse) or somebody else's (signs, with other binding factors)
+    for _ in range(2):
+        i = rng.choice(signers)
+        who = rng.choice(["own", "own", "own", "other"]) if len(signers) > 1 else "own"
+        tgt = i if who == "own" else rng.choice([x for x in signers if x != i])
+        idx = next(n_ for n_, c in enumerate(chosen) if c[0] == shares[tgt]["ident"])
+        part = rng.choice(["hiding", "binding", "both"])
+        newpt = lambda: rng.choice([S.G_mulgen(rng.randrange(1, S.order))] + [c[1] for c in chosen] + [c[2] for c in chosen])
+        c = chosen[idx]
+        H2 = newpt() if part in ("hiding", "both") else c[1]
+        B2 = newpt() if part in ("binding", "both") else c[2]
+        ch2 = list(chosen); ch2[idx] = (c[0], H2, B2)
+        if S.enc_commitment(ch2[idx]) == S.enc_commitment(c):
+            continue
+        z2 = S.sign_share(shares[i], nonces[i], comms[i], msg, ch2)
+        lines.append(T + "sign %s %s %s %s %s" % (shares_b[i].hex(), nonces_b[i].hex(), comms_b[i].hex(), hx(msg), S.enc_commitment_list(ch2).hex()))
+        exp.append(("OK S " + S.enc_sig_share((shares[i]["ident"], z2)).hex()) if z2 is not None else "OK N")
+        cl.add("sign:%s-entry-%s-replaced" % (who, part))
+        if who == "own" and z2 is not None:
+            lines.append("ping"); exp.append("ORACLE-INCONSISTENT: reference signs over a list that does not hold its own commitment")
     ss_b = {i: S.enc_sig_share((shares[i]["ident"], zs[i])) for i in signers}
     for i in signers:
         ok = S.verify_share(spks[i], shares[i]["ident"], zs[i], chosen, gpk, msg)
@@ -402,7 +423,8 @@ def main(argv):
         req = [s + ":run" for s in F.SUITES] + [s + ":split-big" for s in F.SUITES]
         req += [s + ":noncanonical-scalar" for s in F.SUITES] + ["noncanonical-scalar:top-byte"]
         req += ["honest-run", "duplicate-commitment", "corrupt-sig-share", "corrupt-commitment", "corrupt-signature", "corrupt-share-secret", "corrupt-vss",
-                "share-wrong-signer", "share-ident-altered", "other-message", "wire-roundtrip", "rfc8032-interop", "signer-not-in-list", "other-group-key", "identifiers>255", "point-in-other-valid-format"]
+                "share-wrong-signer", "share-ident-altered", "other-message", "wire-roundtrip", "rfc8032-interop", "signer-not-in-list", "other-group-key", "identifiers>255", "point-in-other-valid-format", "sign:own-entry-hiding-replaced", "sign:own-entry-binding-replaced",
+                "sign:own-entry-both-replaced", "sign:other-entry-hiding-replaced"]
         rep.require(*req)
     except Inconclusive as e:
         rep.incon.append(str(e))
